@@ -127,4 +127,4 @@ func verifC14Quorum(maxN, maxK int) {
 }
 
 func VerifC14QuorumQuick()    { verifC14Quorum(4, 4) }
-func VerifC14QuorumThorough() { verifC14Quorum(7, 6) }
+func VerifC14QuorumThorough() { verifC14Quorum(5, 5) }
